@@ -89,6 +89,12 @@ class P:
                 return [X.P(n, "#")]
             if k < 0.8:
                 return [X.A(X.L(rnd.choice(["%s=1", "%s++", "%s+=2", "--%s", "%s=%s+1", "%s", "1/0", "%s=1/0", "(%s=3)*0", "(1 ? %s : z) = 7", "(0 ? z : %s)++", "(%s) += 2"]).replace("%s", rnd.choice(["x", "y", "z", "é", "日", "x日"]))))]
+            if k < 0.86:
+                # an assigning expansion inside an arithmetic expansion, its word another expansion
+                v2 = rnd.choice(["x", "y", "z"])
+                pe = X.P(n, rnd.choice([":=", "=", ":-", ":+"]), [X.P(v2)] if rnd.random() < 0.7 else inner())
+                body = [pe, X.L(rnd.choice([" + 1", "", "*2"]))] if rnd.random() < 0.7 else [X.L("1 + "), X.Q('"', pe)]
+                return [X.A(*body)]
             if k < 0.9:
                 return [X.Q('"', *inner())]
             return [X.L(rnd.choice(["lit", "", "~", "a*b"]))] + inner()
